@@ -83,6 +83,9 @@ int main(int argc, char** argv)
 	if (cmd == "battery") {
 		if (one_type<unsigned short>("unsigned short") || one_type<short>("short") || one_type<int>("int") || one_type<unsigned>("unsigned") || one_type<float>("float") ||
 		    one_type<Long>("Long") || one_type<ULong>("ULong") || one_type<double>("double")) return 1;
+		// a zero-length block in the middle of a stream reads nothing: count, count bytes, then more values
+		for (int count : { 0, 1, 5 }) { StreamBuffer b; b << count; for (int i = 0; i < count; i++) b << byte(i + 1); b << 3.25 << short(-7); StreamBufferReader r(b.data(), b.length()); int c = r.read<int>(); ByteArray blk = r.read(c); double d = r.read<double>(); short s2 = r.read<short>();
+			if (c != count || blk.length() != count || d != 3.25 || s2 != -7) { printf("REPRODUCED reading a block of %d bytes then a double and a short gives %d bytes, %g, %d\n", count, blk.length(), d, (int)s2); return 1; } }
 		printf("OK\n"); return 0;
 	}
 	return 2;
